@@ -20,11 +20,15 @@ const (
 	kPage = iota
 	kFetchFail
 	kIterFail
+	kNilPage // futures only: the future-page fetcher answers (nil, nil) once ("nothing published yet")
 )
 
 type pageSpec struct {
 	Kind  int     `json:"kind"`
 	Items []int64 `json:"items"`
+	// StopOnFetch: fetching this page (through a next link) succeeds, but the paginator is stopped while the fetch is in
+	// flight (oracle-only scenarios: the model has no transition inside a fetch)
+	StopOnFetch bool `json:"stop_on_fetch,omitempty"`
 }
 
 type scenario struct {
@@ -39,6 +43,8 @@ type world struct {
 	futures    []*pg
 	nextFuture int
 	fetches    int
+	stop       func() // stops the paginator (set once it exists)
+	stoppedBy  int    // number of fetches that stopped the paginator
 }
 
 type pg struct {
@@ -78,6 +84,10 @@ func (p *pg) fetchNext() (*pg, error) {
 	if p.next.spec.Kind == kFetchFail {
 		return nil, errors.New("harness: fetch failure")
 	}
+	if p.next.spec.StopOnFetch && p.w.stop != nil {
+		p.w.stop()
+		p.w.stoppedBy++
+	}
 	return p.next, nil
 }
 func (p *pg) GetNext(ctx context.Context) (pagination.IPage, error) {
@@ -87,13 +97,25 @@ func (p *pg) GetNext(ctx context.Context) (pagination.IPage, error) {
 	}
 	return n, nil
 }
-func (p *pg) HasFuture() bool { return p.w.nextFuture < len(p.w.futures) }
+// HasFuture is page-specific: the future link is carried by the pages at which the traversal of the current chain can
+// come to rest (the last page, a page whose next page cannot be fetched, a page without iterator) — NOT by the pages
+// it merely passes through, so that consulting a page the paginator has already left gives a different answer.
+func (p *pg) HasFuture() bool {
+	if p.w.nextFuture >= len(p.w.futures) {
+		return false
+	}
+	return p.next == nil || p.next.spec.Kind == kFetchFail || p.spec.Kind == kIterFail
+}
 func (p *pg) fetchFuture() (*pg, error) {
 	p.w.fetches++
 	if p.w.nextFuture >= len(p.w.futures) {
 		return nil, errors.New("harness: no future")
 	}
 	f := p.w.futures[p.w.nextFuture]
+	if f == nil { // nil page, no error
+		p.w.nextFuture++
+		return nil, nil
+	}
 	if f.spec.Kind == kFetchFail {
 		return nil, errors.New("harness: future fetch failure")
 	}
@@ -102,7 +124,7 @@ func (p *pg) fetchFuture() (*pg, error) {
 }
 func (p *pg) GetFuture(ctx context.Context) (pagination.IStream, error) {
 	n, err := p.fetchFuture()
-	if err != nil {
+	if err != nil || n == nil {
 		return nil, err
 	}
 	return n, nil
@@ -143,10 +165,15 @@ func errKind(err error) string {
 }
 
 // execute runs the scenario on the real paginator; outs has one entry per op.
-func execute(sc scenario) (ctorOK bool, ctorNilNil bool, outs []string) {
+func execute(sc scenario) (ctorOK bool, ctorNilNil bool, outs []string, stopAt int) {
+	stopAt = -1
 	w := &world{}
 	first := chain(w, sc.Pages)
 	for _, f := range sc.Futures {
+		if len(f) == 1 && f[0].Kind == kNilPage {
+			w.futures = append(w.futures, nil)
+			continue
+		}
 		w.futures = append(w.futures, chain(w, f))
 	}
 	ctx, cancelParent := context.WithCancel(context.Background()) // op "X" cancels the context given to the constructor
@@ -170,7 +197,7 @@ func execute(sc scenario) (ctorOK bool, ctorNilNil bool, outs []string) {
 	}
 	staticFuture := func(_ context.Context, cur pagination.IStaticPageStream) (pagination.IStaticPageStream, error) {
 		n, err := cur.(*pg).fetchFuture()
-		if err != nil {
+		if err != nil || n == nil {
 			return nil, err
 		}
 		return n, nil
@@ -226,9 +253,11 @@ func execute(sc scenario) (ctorOK bool, ctorNilNil bool, outs []string) {
 		}
 	}
 	if err != nil || isNil {
-		return false, err == nil && isNil, nil
+		return false, err == nil && isNil, nil, -1
 	}
-	for _, o := range sc.Ops {
+	w.stop = func() { p.Stop()() }
+	for i, o := range sc.Ops {
+		before := w.stoppedBy
 		switch o {
 		case "H":
 			outs = append(outs, fmt.Sprintf("b:%v", p.HasNext()))
@@ -254,8 +283,11 @@ func execute(sc scenario) (ctorOK bool, ctorNilNil bool, outs []string) {
 			}
 			outs = append(outs, "u")
 		}
+		if stopAt < 0 && w.stoppedBy > before {
+			stopAt = i // the paginator was stopped by a page fetch made during this call
+		}
 	}
-	return true, false, outs
+	return true, false, outs, stopAt
 }
 
 func coqPage(p pageSpec) string {
@@ -269,6 +301,9 @@ func coqPage(p pageSpec) string {
 }
 
 func coqPages(ps []pageSpec) string {
+	if len(ps) == 1 && ps[0].Kind == kNilPage {
+		return "[]" // the fetcher answers (nil, nil): the empty segment of the model
+	}
 	ts := make([]string, len(ps))
 	for i, p := range ps {
 		ts[i] = coqPage(p)
@@ -321,7 +356,7 @@ func goodPrefix(ps []pageSpec) (items []int64, allGood bool) {
 }
 
 // oracle states the property directly on the observations (it does not use the Coq model).
-func oracle(r *h.Run, sc scenario, ctorOK, nilNil bool, outs []string) {
+func oracle(r *h.Run, sc scenario, ctorOK, nilNil bool, outs []string, stopAt int) {
 	stream := strings.HasSuffix(sc.Paginator, "stream")
 	firstBad := len(sc.Pages) == 0 || sc.Pages[0].Kind != kPage
 	if nilNil {
@@ -343,6 +378,9 @@ func oracle(r *h.Run, sc scenario, ctorOK, nilNil bool, outs []string) {
 	complete := segGood // whether draining must yield everything in `all`
 	if stream {
 		for _, f := range sc.Futures {
+			if len(f) == 1 && f[0].Kind == kNilPage {
+				continue // "nothing published yet": costs one poll, loses nothing
+			}
 			it, g := goodPrefix(f)
 			if len(f) > 0 && f[0].Kind == kFetchFail {
 				break
@@ -353,9 +391,14 @@ func oracle(r *h.Run, sc scenario, ctorOK, nilNil bool, outs []string) {
 	}
 	// items that every drain must deliver: pages before the first failing page, and for a stream (not dried up with an
 	// elapsed grace period) those of the future segments before the first segment that cannot be fetched
+	hasNilPage := false // a future fetch answering (nil, nil) makes ONE HasNext/GetNext fail legitimately: exact behaviour is left to the correspondence
 	mustAll, pagesGood := goodPrefix(sc.Pages)
 	if stream && pagesGood {
 		for _, f := range sc.Futures {
+			if len(f) == 1 && f[0].Kind == kNilPage {
+				hasNilPage = true
+				continue
+			}
 			if len(f) == 0 || f[0].Kind != kPage {
 				break
 			}
@@ -381,6 +424,9 @@ func oracle(r *h.Run, sc scenario, ctorOK, nilNil bool, outs []string) {
 	hasNextTrueSince := false // a HasNext()==true not yet followed by a GetNext
 	for i, o := range sc.Ops {
 		out := outs[i]
+		if i == stopAt {
+			stopped = true // stopped from inside a page fetch made during this very call: nothing may be yielded any more
+		}
 		switch o {
 		case "S", "C", "X":
 			stopped = true
@@ -390,7 +436,7 @@ func oracle(r *h.Run, sc scenario, ctorOK, nilNil bool, outs []string) {
 			if stopped && out == "b:true" {
 				r.Fail("hasnext-after-stop:"+sc.Paginator, "HasNext() returned true after Stop/Close", sc)
 			}
-			if !stopped && out == "b:false" && len(yielded) < len(mustNow(stream && driedUp && sc.Elapsed)) {
+			if !stopped && !hasNilPage && out == "b:false" && len(yielded) < len(mustNow(stream && driedUp && sc.Elapsed)) {
 				// the canonical loop  for HasNext { GetNext }  would stop here and lose the remaining items
 				r.Fail("hasnext-false-with-items-left:"+sc.Paginator, fmt.Sprintf("HasNext() answered false after %d of %d reachable items", len(yielded), len(mustNow(stream && driedUp && sc.Elapsed))), sc)
 			}
@@ -405,7 +451,7 @@ func oracle(r *h.Run, sc scenario, ctorOK, nilNil bool, outs []string) {
 				yielded = append(yielded, v)
 			} else if hasNextTrueSince && !stopped {
 				r.Fail("getnext-fails-after-hasnext:"+sc.Paginator, "HasNext() said true but the following GetNext() failed with "+out, sc)
-			} else if !stopped && len(yielded) < len(mustNow(stream && driedUp && sc.Elapsed)) {
+			} else if !stopped && !hasNilPage && len(yielded) < len(mustNow(stream && driedUp && sc.Elapsed)) {
 				// "GetNext without HasNext works": items that must still come cannot be answered by an error
 				r.Fail("getnext-error-with-items-left:"+sc.Paginator, fmt.Sprintf("GetNext() failed with %s after %d of %d reachable items", out, len(yielded), len(mustAll)), sc)
 			}
@@ -441,6 +487,9 @@ func oracle(r *h.Run, sc scenario, ctorOK, nilNil bool, outs []string) {
 			must = append(must, seg...)
 			_ = good
 			for _, f := range sc.Futures {
+				if len(f) == 1 && f[0].Kind == kNilPage {
+					continue
+				}
 				if len(f) > 0 && f[0].Kind == kFetchFail {
 					break
 				}
@@ -525,9 +574,16 @@ func genOps(r *h.Run, stream bool, total int) []string {
 }
 
 func runScenario(r *h.Run, sc scenario, emit bool) {
-	ctorOK, nilNil, outs := execute(sc)
+	ctorOK, nilNil, outs, stopAt := execute(sc)
 	r.Eval()
-	oracle(r, sc, ctorOK, nilNil, outs)
+	oracle(r, sc, ctorOK, nilNil, outs, stopAt)
+	for _, ps := range append([][]pageSpec{sc.Pages}, sc.Futures...) {
+		for _, p := range ps {
+			if p.StopOnFetch {
+				emit = false // oracle only: the model has no transition inside a fetch
+			}
+		}
+	}
 	if emit {
 		r.Case("(CPlain "+coqCase(sc, ctorOK && !nilNil, outs)+")", sc)
 	}
@@ -758,6 +814,21 @@ func main() {
 		runScenario(r, scenario{Paginator: k, Pages: []pageSpec{{Kind: kFetchFail}}, Ops: []string{"H"}}, true)
 		// empty collection, empty pages anywhere
 		runScenario(r, scenario{Paginator: k, Pages: []pageSpec{{}}, Ops: []string{"H", "G", "H"}}, true)
+		// stopped from inside a page fetch: the fetched page must not be served (oracle only)
+		runScenario(r, scenario{Paginator: k, Pages: []pageSpec{{Items: []int64{1, 2}}, {Items: []int64{3, 4}, StopOnFetch: true}, {Items: []int64{5}}}, Ops: []string{"G", "G", "G", "H", "G", "H"}}, false)
+		runScenario(r, scenario{Paginator: k, Pages: []pageSpec{{Items: []int64{1}}, {}, {Items: []int64{2}, StopOnFetch: true}}, Ops: []string{"H", "G", "H", "G", "H"}}, false)
+		if strings.HasSuffix(k, "stream") {
+			// next-links and future links mixed: the next chain ends in an EMPTY page that carries the future link
+			runScenario(r, scenario{Paginator: k, Pages: []pageSpec{{Items: []int64{1, 2}}, {}}, Futures: [][]pageSpec{{{Items: []int64{3, 4}}}, {{}, {Items: []int64{5}}, {}}},
+				Ops: []string{"H", "G", "H", "G", "H", "G", "H", "G", "H", "G", "H"}}, true)
+			runScenario(r, scenario{Paginator: k, Pages: []pageSpec{{Items: []int64{1}}, {}, {}}, Futures: [][]pageSpec{{{}, {Items: []int64{2}}}},
+				Ops: []string{"G", "G", "G", "H"}}, true)
+			// the future fetcher answers (nil, nil) once, then real pages follow: nothing is lost
+			runScenario(r, scenario{Paginator: k, Pages: []pageSpec{{Items: []int64{1, 2}}}, Futures: [][]pageSpec{{{Kind: kNilPage}}, {{Items: []int64{3, 4}}}, {{Kind: kNilPage}}, {{Kind: kNilPage}}, {{Items: []int64{5}}}},
+				Ops: []string{"H", "G", "H", "G", "H", "G", "H", "G", "H", "G", "H", "G", "H", "G", "H", "G", "H", "G", "H"}}, true)
+			runScenario(r, scenario{Paginator: k, Pages: []pageSpec{{Items: []int64{1}}}, Futures: [][]pageSpec{{{Kind: kNilPage}}, {{Items: []int64{2}}}},
+				Ops: []string{"G", "G", "G", "G", "H"}}, true)
+		}
 		// cancellation through the context given to the constructor (not Stop/Close), items still left
 		runScenario(r, scenario{Paginator: k, Pages: []pageSpec{{Items: []int64{1, 2, 3}}, {Items: []int64{4}}}, Ops: []string{"G", "X", "H", "G", "G", "H"}}, true)
 		runScenario(r, scenario{Paginator: k, Pages: []pageSpec{{Items: []int64{1}}, {Items: []int64{2, 3}}}, Ops: []string{"X", "G", "H"}}, true)
@@ -774,6 +845,7 @@ func main() {
 			np = 1
 		}
 		failures := r.Rng.Intn(4) == 0
+		nilPages := 0
 		sc := scenario{Paginator: k, Pages: genPages(r, np, failures, &base)}
 		if failures && r.Rng.Intn(10) == 0 {
 			sc.Pages[0].Kind = kFetchFail + r.Rng.Intn(2)
@@ -787,10 +859,20 @@ func main() {
 				if failures && r.Rng.Intn(6) == 0 {
 					f[0] = pageSpec{Kind: kFetchFail + r.Rng.Intn(2)}
 				}
+				if r.Rng.Intn(12) == 0 {
+					sc.Futures = append(sc.Futures, []pageSpec{{Kind: kNilPage}})
+					nilPages++
+				}
 				sc.Futures = append(sc.Futures, f)
 			}
 		}
-		sc.Ops = genOps(r, stream, int(base))
+		stopOnFetch := false
+		if !failures && len(sc.Pages) > 1 && r.Rng.Intn(10) == 0 {
+			sc.Pages[1+r.Rng.Intn(len(sc.Pages)-1)].StopOnFetch = true
+			stopOnFetch = true
+		}
+		_ = stopOnFetch
+		sc.Ops = genOps(r, stream, int(base)+2*nilPages)
 		runScenario(r, sc, i < r.N(600, 4000))
 	}
 	for range tss {
